@@ -431,11 +431,13 @@ Variable codec2_encode : cstate -> list Z -> cstate * list N.
 Definition run_mod_calls_gen (zero_init : bool) (audio0 : list Z) (cs0 : cstate) (can : N) (src dest : list N) (samples : list Z) :=
   mod_calls uninit cstate codec2_encode zero_init audio0 cs0 can src dest samples.
 
+Definition run_mod_bitstream_gen (zero_init : bool) (audio0 : list Z) (cs0 : cstate) (can : N) (src dest : list N) (samples : list Z) : list N :=
+  render_bitstream (run_mod_calls_gen zero_init audio0 cs0 can src dest samples).
+
 (** the program as built from the current source *)
 Definition run_mod_calls := run_mod_calls_gen mod_audio_zero_init.
 
-Definition run_mod_bitstream (audio0 : list Z) (cs0 : cstate) (can : N) (src dest : list N) (samples : list Z) : list N :=
-  render_bitstream (run_mod_calls audio0 cs0 can src dest samples).
+Definition run_mod_bitstream := run_mod_bitstream_gen mod_audio_zero_init.
 
 Definition run_mod_baseband_gen (per_instantiation : bool) (invert : bool) (audio0 : list Z) (cs0 : cstate) (can : N) (src dest : list N) (samples : list Z) : list Z :=
   render_baseband per_instantiation invert (run_mod_calls audio0 cs0 can src dest samples).
